@@ -195,13 +195,15 @@ def generate(rng, opts):
             modpaths += ["pkg.sub"] + (["pkg.sub.b"] if rng.random() < 0.7 else [])
         if rng.random() < 0.3:
             modpaths.append("pkg.c")
+        if "pkg.sub" in modpaths and rng.random() < 0.3:
+            modpaths.append("pkg.sub.d")  # exists on one side only, one level further down
     modules = {}
     for mp in modpaths:
         rt, st = _gen_pair(rng, 0, cfg)
         r = rng.random()
         has_rt = True
         has_st = r < 0.75
-        if mp == "pkg.c":
+        if mp in ("pkg.c", "pkg.sub.d"):
             has_rt, has_st = (False, True) if rng.random() < 0.6 else (True, False)
         if mp in ("pkg", "mod") and rng.random() < 0.8:
             has_st = True
@@ -456,7 +458,9 @@ def exp_world(world):
         elif rt is not None:
             node = {"kind": "module", "doc": _doc(rt["doc"]), "members": exp_container(rt["members"], []), "runtime": True}
         else:
-            node = {"kind": "module", "doc": _doc(st["doc"]), "members": exp_container([], st["members"], nested_stub_only=True), "runtime": ANY}
+            # a module that only the stubs package has is added by the merge and marked unavailable at runtime; inside
+            # the package itself a lone x.pyi is simply loaded as the module x
+            node = {"kind": "module", "doc": _doc(st["doc"]), "members": exp_container([], st["members"], nested_stub_only=True), "runtime": False if world["placement"] == "stubs_pkg" else ANY}
         if rt is not None and any(m.get("guard") for m in _all_members(rt["members"])):
             node["members"].setdefault("TYPE_CHECKING", {"kind": "alias", "target": "typing.TYPE_CHECKING", "runtime": ANY})
         if st is not None and any(m["k"] == "overloads" for m in _all_members(st["members"])):
@@ -776,6 +780,34 @@ def public_location_stub_members(world):
     return out
 
 
+def stub_only_overload_tables(world):
+    """[(dotted path of a class only the stubs have, method name, number of overloads)] for overload groups without
+    implementation: they are no members, they live in the class's overloads table, which moves with the class."""
+    out = []
+
+    def rec(path, rt_members, st_members, inside_stub_only):
+        rt_by = {m["name"]: m for m in rt_members or []}
+        for s in st_members:
+            if s["k"] != "class":
+                continue
+            r = rt_by.get(s["name"])
+            if r is None and rt_members is not None and any(m["k"] == "star" for m in rt_members):
+                continue  # may be re-exported by the wildcard: not stub-only for sure
+            stub_only = inside_stub_only or r is None
+            if stub_only:
+                for m in s["members"]:
+                    if m["k"] == "overloads" and m.get("impl") is None:
+                        out.append((f"{path}.{s['name']}", m["name"], len(m["sigs"])))
+                rec(f"{path}.{s['name']}", None, s["members"], True)
+            elif r["k"] == "class":
+                rec(f"{path}.{s['name']}", r["members"], s["members"], False)
+
+    for mp, sides in world["modules"].items():
+        if sides["st"] is not None and mp != "pkg.compat":
+            rec(mp, sides["rt"]["members"] if sides["rt"] else None, sides["st"]["members"], sides["rt"] is None)
+    return out
+
+
 def _source_inspect(module_name, filepath=None, parent=None, lines_collection=None, modules_collection=None, **kwargs):
     """Stand-in for the inspector (STUB): a compiled module cannot be generated, so the file carries the source text
     it was 'compiled' from and is analysed statically; the resulting module keeps the compiled file as its path."""
@@ -889,6 +921,21 @@ def execute(plan, ctx):
                         ctx.fail("M-stub-only-through-reexport", f"{mp}: the stubs declare class {cname} where the runtime re-exports pkg._impl.{cname}; its stub-only member {n!r} {what} (schedule {sched})", tags=tags)
                         return
                 ctx.probe("stub-only-members-through-reexport-checked", len(only))
+            # overload groups of a class that only the stubs have travel with the class
+            for cpath, mname, n in stub_only_overload_tables(world):
+                obj = top
+                try:
+                    for part in cpath.split(".")[1:]:
+                        obj = obj.members[part]
+                except KeyError:
+                    continue
+                if obj.is_alias or obj.kind.value != "class":
+                    continue
+                table = obj.overloads if isinstance(obj.overloads, dict) else {}
+                if len(table.get(mname) or ()) != n:
+                    ctx.fail("M-stub-only-overloads-lost", f"{cpath}: the class exists only in the stubs, which declare {n} overloads of {mname!r}; the merged class has {len(table.get(mname) or ())} (schedule {sched})", tags=tags)
+                    return
+                ctx.probe("stub-only-overload-tables-checked")
             judge_monitor(ctx, mon, world)
             if ctx.failures:
                 return
